@@ -1,5 +1,7 @@
 package slicez
 
+import "unsafe"
+
 type FlexSlice[T any] struct {
 	Values []T
 }
@@ -17,6 +19,10 @@ func (f *FlexSlice[T]) Prepend(v ...T) {
 	nc := n1 + n2
 	if c >= nc {
 		f.Values = f.Values[:nc]
+		if overlaps(v, f.Values) {
+			// Prepend(f.Values[i:j]...): shifting in place would overwrite v first
+			v = append([]T(nil), v...)
+		}
 		copy(f.Values[n1:], f.Values[:n2])
 		copy(f.Values, v)
 		return
@@ -102,4 +108,16 @@ func (f *FlexSlice[T]) shrink() {
 
 func (f *FlexSlice[T]) withinRange(index int) bool {
 	return index >= 0 && index < len(f.Values)
+}
+
+// overlaps reports whether a and b share memory.
+func overlaps[T any](a, b []T) bool {
+	if len(a) == 0 || len(b) == 0 {
+		return false
+	}
+
+	size := unsafe.Sizeof(a[0])
+	a0 := uintptr(unsafe.Pointer(&a[0]))
+	b0 := uintptr(unsafe.Pointer(&b[0]))
+	return a0 < b0+uintptr(len(b))*size && b0 < a0+uintptr(len(a))*size
 }
